@@ -23,6 +23,7 @@ the merkle root, the block signature as bytes.
 -/
 import BytomModel.Lemmas.Proposer
 import BytomModel.Lemmas.NodePoolInv
+import BytomModel.Lemmas.C13Chain
 import BytomModel.Props.C14
 
 namespace BytomModel.Props.C38
@@ -171,6 +172,7 @@ theorem base_accepts (s : NodePool.State) (b : Header) (cb : Ledger.Tx) (nb ob :
     (hcb : cb.ins = []) (hfresh : ∀ o ∈ cb.outs, o.id ∉ (proposedTxs s).flatMap (·.ins))
     (htxs : s.base.txsOf b.id = cb :: proposedTxs s)
     (hvalid : s.base.validBlock b = true)
+    (hpool : ∀ x, x ∈ s.base.node.orphans → ∀ n, s.base.validIn n x = true)
     (hok : (s.base.node.processBlock b).2 = .ok) (hbest : (s.base.node.processBlock b).1.best = b.id)
     (hnew : b.id ≠ s.base.node.best)
     (hnb : (s.base.node.processBlock b).1.header b.id = some nb)
@@ -181,7 +183,8 @@ theorem base_accepts (s : NodePool.State) (b : Header) (cb : Ledger.Tx) (nb ob :
   have hattach : (s.base.ledgerReorg [nb] []).isSome = true :=
     proposed_block_attaches s nb cb hcb hfresh (hid ▸ htxs) hprop
   unfold NodeLedger.State.processBlock
-  simp only [hvalid, Bool.not_true, Bool.and_false, Bool.false_eq_true, if_false]
+  rw [BytomModel.Lemmas.C13.processBlock_eq_node s.base b hvalid hpool]
+  simp only
   unfold NodeLedger.State.settle
   have hne : ((s.base.node.processBlock b).1.best == s.base.node.best) = false := by
     rw [hbest]; simpa using hnew
@@ -208,6 +211,9 @@ theorem base_accepts (s : NodePool.State) (b : Header) (cb : Ledger.Tx) (nb ob :
       in the window and in a slot of the validator that signed; this is where "the block's slot
       belongs to the local validator" enters) and the context-free flag (coinbase amounts:
       `proposer_coinbase_passes`; transaction validity, gas and merkle root are assumed);
+    * `hpool`: the blocks waiting in the orphan pool pass `ValidateBlock` when they are connected
+      (`saveBlock` validates a block that leaves the pool; an invalid one is dropped) — then the
+      chain step of the node with ledger is `Node.State.processBlock`, which `hok` … speak about;
     * `hok`, `hbest`: Casper's `ApplyBlock` accepts the block and `tryReorganize` selects it —
       the fork choice's winner after the block is stored must be the block itself.  This fails
       exactly when the current winner is not the best block the proposer built on (open finding
@@ -219,6 +225,7 @@ theorem proposed_block_valid (s : NodePool.State) (b : Header) (cb : Ledger.Tx) 
     (hcb : cb.ins = []) (hfresh : ∀ o ∈ cb.outs, o.id ∉ (proposedTxs s).flatMap (·.ins))
     (htxs : s.base.txsOf b.id = cb :: proposedTxs s)
     (hvalid : s.base.validBlock b = true)
+    (hpool : ∀ x, x ∈ s.base.node.orphans → ∀ n, s.base.validIn n x = true)
     (hok : (s.base.node.processBlock b).2 = .ok) (hbest : (s.base.node.processBlock b).1.best = b.id)
     (hnew : b.id ≠ s.base.node.best)
     (hnb : (s.base.node.processBlock b).1.header b.id = some nb)
@@ -226,7 +233,7 @@ theorem proposed_block_valid (s : NodePool.State) (b : Header) (cb : Ledger.Tx) 
     (hpar : nb.parent = s.base.node.best) (hid : nb.id = b.id) (hobid : ob.id = s.base.node.best)
     (hheight : nb.height = ob.height + 1) (hprop : nb.height = proposeHeight s) :
     (s.propose.2.processBlock b).2 = .ok ∧ (s.propose.2.processBlock b).1.base.node.best = b.id := by
-  have h := base_accepts s b cb nb ob hcb hfresh htxs hvalid hok hbest hnew hnb hob hpar hid hobid hheight hprop
+  have h := base_accepts s b cb nb ob hcb hfresh htxs hvalid hpool hok hbest hnew hnb hob hpar hid hobid hheight hprop
   unfold NodePool.State.processBlock
   rw [step_res, BytomModel.Lemmas.NodePoolInv.step_base, BytomModel.Lemmas.NodePoolInv.propose_base]
   exact h
@@ -314,7 +321,11 @@ example : vget exS.base.utxo 200 = none ∧ exTB ∈ proposedTxs exS := by decid
 /-- all hypotheses of `proposed_block_valid` (and so of `propose_applies`,
     `proposed_block_attaches`) hold for `exS` and `exB1` -/
 example : (exS.propose.2.processBlock exB1).2 = .ok ∧ (exS.propose.2.processBlock exB1).1.base.node.best = exB1.id :=
-  proposed_block_valid exS exB1 exCb1 exB1 exG rfl (by decide) (by decide) (by decide) (by decide) (by decide)
+  proposed_block_valid exS exB1 exCb1 exB1 exG rfl (by decide) (by decide) (by decide)
+    (fun x hx => by
+      have h : exS.base.node.orphans.isEmpty = true := by decide
+      rw [List.isEmpty_iff] at h; rw [h] at hx; cases hx)
+    (by decide) (by decide)
     (by decide) rfl rfl rfl rfl rfl rfl (by decide)
 
 /-- `validBlock_of_slot` on a state with recorded meta data: validator 1 of 2 signs in its slot -/
